@@ -45,10 +45,13 @@ def run_once(ctx, mono, d, truth, order_names, lo, hi, chunk, wit0, default_wind
         except Exception as e:
             exc = e
     ctx.event('mono:run')
-    wrote = sorted(set(os.path.basename(p) for p in tr.written(under=os.path.join(d, 'convolved'))))
+    wrote = sorted(set(os.path.basename(p) for p in tr.produced(under=os.path.join(d, 'convolved'))))
     ondisk = sorted(os.listdir(os.path.join(d, 'convolved'))) if os.path.isdir(os.path.join(d, 'convolved')) else []
-    if sorted(ondisk) != wrote:
-        ctx.violation('trace-vs-listing', 'files opened for writing differ from the directory listing', dict(wit, traced=wrote, listing=ondisk))
+    # the files present afterwards are what "writes exactly one file per wavelength" is about; a file that was opened
+    # for writing and is gone again (temporary + rename) is not a violation; a file present that was never opened is
+    if [f for f in ondisk if f not in wrote]:
+        ctx.violation('trace-vs-listing', 'a file is present that was never opened for writing during the call', dict(wit, traced=wrote, listing=ondisk))
+    wrote = sorted(ondisk)
     idx = []
     for name in wrote:
         try:
